@@ -28,6 +28,7 @@ import (
 	"verifharness/hv"
 	"verifharness/px"
 
+	"github.com/datastax/cql-proxy/codecs"
 	"github.com/datastax/go-cassandra-native-protocol/frame"
 	"github.com/datastax/go-cassandra-native-protocol/message"
 	"github.com/datastax/go-cassandra-native-protocol/primitive"
@@ -327,9 +328,44 @@ func c17SysRows(ctx *Ctx) {
 	}
 }
 
+// c17NoReader: a client that pipelines thousands of forwarded requests with large answers and does not read them, but
+// stays connected.  Other clients must keep being served meanwhile, and afterwards.
+func c17NoReader(ctx *Ctx) {
+	p := startC17(c17Cfgs[0])
+	defer p.stop()
+	conn, err := net.DialTimeout("tcp", p.addr, 5*time.Second)
+	if err != nil {
+		panic(err)
+	}
+	defer conn.Close()
+	hostile := &px.Client{C: conn, Codec: codecs.DefaultRawCodec}
+	_, _ = conn.Write(hostile.Encode(p.cver, 1, message.NewStartup(), nil))
+	if _, err := px.ReadFrame(conn); err != nil {
+		panic("c17: startup of the non-reading client")
+	}
+	big := append([]byte{0, 0, 0, 1}, make([]byte, 16000)...)
+	n := 3000
+	go func() {
+		for i := 0; i < n; i++ {
+			tok := fmt.Sprintf("nr%dx%d", ctx.Seed%1000, i)
+			p.be.SetScript(tok, fb.Outcome{Kind: fb.RawReply, RawOpcode: 8, RawBody: big})
+			q := hostile.Encode(p.cver, int16(1+i%20000), &message.Query{Query: "SELECT v FROM ks.t WHERE k = 'tok:" + tok + "'", Options: &message.QueryOptions{}}, nil)
+			if _, err := conn.Write(q); err != nil {
+				return
+			}
+		}
+	}()
+	time.Sleep(1500 * time.Millisecond)
+	p.verdict(ctx, 14, fmt.Sprintf("a client with %d pipelined requests (16 KB answers) that does not read them and stays connected", n), true, "client-that-does-not-read")
+	_ = conn.Close()
+	time.Sleep(500 * time.Millisecond)
+	p.verdict(ctx, 15, "after the client that did not read has gone", true, "after-client-that-does-not-read")
+}
+
 func genC17(ctx *Ctx) {
 	r := ctx.Rng
 	c17SysRows(ctx)
+	c17NoReader(ctx)
 	for ci, cfg := range c17Cfgs {
 		p := startC17(cfg)
 		full := ci == 0 || ctx.Thorough
